@@ -19,7 +19,9 @@ func genC01(r *rand.Rand, t *Trace, thorough bool) {
 		if p.dim > 16 {
 			nops = 5 + r.Intn(15)
 		}
-		c := runVecHistory(r, p, vecHistOpts{nops: nops}, t)
+		// every third history re-adds removed ids, some of them with a vector the index rejects: a rejected
+		// re-add must not bring the removed vector back (C01: a removed vector never appears)
+		c := runVecHistory(r, p, vecHistOpts{nops: nops, allowReuse: it%3 == 1}, t)
 		t.Emit(c, "flat.metric."+string(metrics[p.metric]))
 	}
 }
